@@ -338,6 +338,27 @@ def main():
 
 
 
+def permuted_facet_points(pts, code):
+    """points of a reference facet under permutation code `code` (0 = as given)."""
+    pts = np.array(pts, dtype=float)
+    if code == 0:
+        return pts
+    if pts.shape[1] == 1:
+        return 1.0 - pts if code % 2 else pts
+    rot, ref = divmod(int(code), 2)
+    out = []
+    for (a, b_) in pts:
+        for _ in range(rot):
+            a, b_ = (b_, 1.0 - a - b_) if permuted_facet_points.simplex else (b_, 1.0 - a)
+        if ref:
+            a, b_ = b_, a
+        out.append([a, b_])
+    return np.array(out)
+
+
+permuted_facet_points.simplex = True
+
+
 def check_expression_case(case, seed):
     """expression kernels against oracle.reference_expression."""
     import ufl
@@ -376,7 +397,18 @@ def check_expression_case(case, seed):
             mesh = max(doms, key=lambda d: d.topological_dimension)
             ents = list(range(con["e_range"][0], max(con["e_range"][1], 1))) if con["ne"] else [None]
             worst = 0.0
+            pts0 = np.asarray(points, dtype=float)
+            cellname = mesh.ufl_cell().cellname
+            cellname = cellname() if callable(cellname) else cellname
+            tdim = oracle.TDIM[cellname]
+            runs = []
             for ent in ents:
+                ncodes = 1
+                if ent is not None and tdim >= 2 and pts0.shape[1] == tdim - 1:
+                    ncodes = 2 if tdim == 2 else {"triangle": 6, "quadrilateral": 8}[oracle.facet_type(cellname, ent).name]
+                codes = [0] + ([int(q) for q in rng.choice(np.arange(1, ncodes), size=min(2, ncodes - 1), replace=False)] if ncodes > 1 else [])
+                runs += [(ent, q) for q in codes]
+            for ent, code in runs:
                 dd = inputs.make(con, rng, scalar)
                 # w holds the coefficients that survive differentiation (UFL's expand_derivatives), in the order of
                 # the expression as written -- the packing the descriptor's original_coefficient_positions announces
@@ -409,9 +441,13 @@ def check_expression_case(case, seed):
                 if ent is not None:
                     dd["e"][0] = ent
                 dd["p"][:] = 0
+                dd["p"][0] = code
                 A = np.zeros_like(dd["A"])
                 runc.call_kernel(b.kernel(kr["name"]), A, dd["w"], dd["c"], dd["x"], dd["e"], dd["p"])
-                exp = oracle.reference_expression(expr, np.asarray(points, dtype=float), cell, wvals, cvals, entity=ent).reshape(-1)
+                # permutation code q of a facet: output row i holds the value at the i-th point as the neighbour
+                # numbers the facet (code = 2*rotations + reflections; rotate first)
+                permuted_facet_points.simplex = ent is not None and tdim == 3 and oracle.facet_type(cellname, ent).name == "triangle"
+                exp = oracle.reference_expression(expr, permuted_facet_points(pts0, code), cell, wvals, cvals, entity=ent).reshape(-1)
                 tol = 2e-4 if scalar in ("float32", "complex64") else 1e-9
                 scale = max(np.max(np.abs(exp)), 1e-3)    # inputs are O(1): below 1e-3 the comparison is absolute (tensors that vanish identically)
                 err = float(np.max(np.abs(A - exp)) / scale) if A.shape == exp.shape else float("inf")
@@ -419,11 +455,11 @@ def check_expression_case(case, seed):
                     err = 0.0      # identically vanishing value: rounding noise on both sides
                 worst = max(worst, err)
                 if err > tol:
-                    kr.update(status="mismatch", entity=ent, error=err, observed=[float(x) for x in np.real(A[:12])],
+                    kr.update(status="mismatch", entity=ent, permutation_code=code, error=err, observed=[float(x) for x in np.real(A[:12])],
                               expected=[float(x) for x in np.real(exp[:12])])
                     break
             else:
-                kr.update(status="agree", error=worst, entities=len(ents))
+                kr.update(status="agree", error=worst, entities=len(ents), runs=len(runs), nonzero_codes=sum(1 for _, q in runs if q))
         except oracle.Unsupported as e:
             kr.update(status="unsupported", why=str(e))
         except CaseTimeout:
